@@ -131,15 +131,25 @@ func (ctx Context) createFirstLinePango(layout *text.TextLayoutPango,
 
 		runDst := &output.Runs[len(output.Runs)-1]
 
-		// Positions of the glyphs in the UTF-8 string
-		utf8Positions := make([]int, len(glyphString.Glyphs)-1)
-		for i := range utf8Positions {
-			utf8Positions[i] = offset + glyphString.LogClusters[i+1]
+		// Positions of the glyphs in the text : the cluster of a glyph runs from its
+		// start to the next cluster start (in logical order) or to the end of the item.
+		// For right-to-left runs the clusters are in decreasing order.
+		clusterStarts := make([]int, len(glyphString.Glyphs))
+		clusterEnds := make([]int, len(glyphString.Glyphs))
+		for i := range clusterStarts {
+			clusterStarts[i] = offset + glyphString.LogClusters[i]
 		}
-		utf8Positions = append(utf8Positions, offset+glyphItem.Item.Length)
+		for i, start := range clusterStarts {
+			end := offset + glyphItem.Item.Length
+			for _, other := range clusterStarts {
+				if other > start && other < end {
+					end = other
+				}
+			}
+			clusterEnds[i] = end
+		}
 
 		runDst.Glyphs = make([]backend.TextGlyph, len(glyphString.Glyphs))
-		var prevUtf8Position int
 		for i, glyphInfo := range glyphString.Glyphs {
 			outGlyph := &runDst.Glyphs[i]
 			width := glyphInfo.Geometry.Width
@@ -183,12 +193,10 @@ func (ctx Context) createFirstLinePango(layout *text.TextLayoutPango,
 			outGlyph.Kerning = int(pr.Fl(outFont.Extents[outGlyph.Glyph].Width) - text.PangoUnitsToFloat(width*1000)/fontSize + outGlyph.Offset)
 
 			// Mapping between glyphs and characters
-			utf8Position := utf8Positions[i]
-			outGlyph.TextOffset, outGlyph.TextLength = prevUtf8Position, utf8Position-prevUtf8Position
+			outGlyph.TextOffset, outGlyph.TextLength = clusterStarts[i], clusterEnds[i]-clusterStarts[i]
 			if _, in := outFont.Cmap[outGlyph.Glyph]; !in {
-				outFont.Cmap[outGlyph.Glyph] = textRunes[prevUtf8Position:utf8Position]
+				outFont.Cmap[outGlyph.Glyph] = textRunes[clusterStarts[i]:clusterEnds[i]]
 			}
-			prevUtf8Position = utf8Position
 
 			// advance
 			outGlyph.XAdvance = xAdvance
